@@ -68,6 +68,8 @@ def ann_src(a):
         return f"PH[{a[1]}]"
     if k == "w":
         return "Whatever"
+    if k == "rk":
+        return f"Rem[{a[1]}]"
     raise ValueError(a)
 
 
@@ -175,6 +177,7 @@ from typing import Literal
 from ovld import (Dependent, Exactly, Intersection, StrictSubclass, call_next,
                   class_check, dependent_check, parametrized_class_check,
                   recurse, typeorder)
+from ovld.dependent import ParametrizedDependentType
 from ovld.mro import Order
 from ovld.types import Whatever
 
@@ -233,6 +236,20 @@ class _PHh:
 
 
 PH = parametrized_class_check(_PHh)
+
+
+class Rem(ParametrizedDependentType):
+    """User-defined kind of value-dependent type: Rem[r] holds ints with v % 3 == r. Two
+    different instances never hold for the same value, which is what the hint below promises."""
+
+    exclusive_type = True
+
+    def default_bound(self, r):
+        return int
+
+    def check(self, value):
+        HOOK("Rem")
+        return value % 3 == self.parameter
 
 '''
 
